@@ -77,6 +77,24 @@ struct Viol {
 	size: usize,
 }
 
+thread_local! {
+	/// (leg, index) of the enumeration case being evaluated on this thread (set by par_for / bfs)
+	static CASE: std::cell::Cell<(usize, usize)> = const { std::cell::Cell::new((usize::MAX, 0)) };
+	/// menu indices of the history being evaluated (set by bfs)
+	static CASE_HIST: std::cell::RefCell<Option<(usize, Vec<usize>)>> = const { std::cell::RefCell::new(None) };
+}
+
+pub fn set_case(leg: usize, index: usize) {
+	CASE.with(|c| c.set((leg, index)));
+}
+pub fn clear_case() {
+	CASE.with(|c| c.set((usize::MAX, 0)));
+	CASE_HIST.with(|c| *c.borrow_mut() = None);
+}
+pub fn set_case_hist(leg: usize, hist: &[usize]) {
+	CASE_HIST.with(|c| *c.borrow_mut() = Some((leg, hist.to_vec())));
+}
+
 pub struct Reporter {
 	pub prop: &'static str,
 	pub tier: Tier,
@@ -98,9 +116,17 @@ pub struct Reporter {
 	assumptions: Mutex<Vec<String>>,
 	exhaustive: Mutex<bool>,
 	machinery_errors: Mutex<Vec<String>>,
+	/// enumeration legs (par_for / bfs invocations) are numbered in program order
+	legs: std::sync::atomic::AtomicUsize,
+	/// `verif replay`: evaluate only this case — (leg, index) or (leg, history as menu indices)
+	pub replay_filter: Option<(usize, Vec<usize>)>,
 }
 
 impl Reporter {
+	pub fn next_leg(&self) -> usize {
+		self.legs.fetch_add(1, Ordering::SeqCst)
+	}
+
 	pub fn new(prop: &'static str, tier: Tier, seed: u64, level: &'static str, jobs: usize) -> Self {
 		Reporter {
 			prop,
@@ -123,6 +149,8 @@ impl Reporter {
 			assumptions: Mutex::new(Vec::new()),
 			exhaustive: Mutex::new(true),
 			machinery_errors: Mutex::new(Vec::new()),
+			legs: std::sync::atomic::AtomicUsize::new(0),
+			replay_filter: None,
 		}
 	}
 
@@ -199,6 +227,20 @@ impl Reporter {
 	/// feature of the case (matched against known_findings.json); the smallest replay
 	/// per signature is kept.
 	pub fn violation(&self, sig: &str, what: &str, replay: Value) {
+		// which enumeration case is being evaluated: lets `verif replay` re-evaluate exactly this case
+		let mut replay = replay;
+		if let Value::Object(o) = &mut replay {
+			let tier = if self.tier.thorough() { "thorough" } else { "quick" };
+			let hist = CASE_HIST.with(|c| c.borrow().clone());
+			if let Some((leg, h)) = hist {
+				o.insert("case_ref".into(), json!({"tier": tier, "leg": leg, "history": h}));
+			} else {
+				let (leg, idx) = CASE.with(|c| c.get());
+				if leg != usize::MAX {
+					o.insert("case_ref".into(), json!({"tier": tier, "leg": leg, "index": idx}));
+				}
+			}
+		}
 		let size = replay.to_string().len();
 		let mut v = self.viols.lock().unwrap();
 		match v.get_mut(sig) {
@@ -252,7 +294,8 @@ impl Reporter {
 				let h = hash_of(sig) & 0xffff_ffff;
 				let path = root.join("replays").join(format!("{}-{:08x}.json", self.prop, h));
 				let _ = std::fs::create_dir_all(root.join("replays"));
-				let body = json!({"property": self.prop, "signature": sig, "what": v.what, "cases": v.count, "replay": v.replay});
+				let body = json!({"property": self.prop, "tier": self.tier.name(), "signature": sig, "what": v.what, "cases": v.count, "replay": v.replay,
+					"how_to_replay": format!("cargo run --release -q --offline -- replay {}   (re-executes this schedule / case against /repo's current tree; prints REPRODUCED or NOT-REPRODUCED)", path.display())});
 				let _ = std::fs::write(&path, serde_json::to_string_pretty(&body).unwrap());
 				lines.push(format!("VIOLATION property={} replay={}", self.prop, path.display()));
 				eprintln!("  signature={} cases={} what={}", sig, v.count, v.what);
